@@ -15,6 +15,8 @@ def to_smt2(assertions, get_values=()):
     s = z3.Solver()
     for a in assertions:
         s.add(a)
+    for v in get_values:
+        s.add(v == v)          # keeps the declaration of every reported input in the script
     txt = s.to_smt2()
     # z3's to_smt2 ends with (check-sat); add model query
     txt = "(set-logic ALL)\n" + txt
@@ -42,7 +44,9 @@ def _run(name, cmd, path, timeout, out):
         res = first if first in ("sat", "unsat", "unknown") else "error"
         if "(error" in o and res != "error":
             # an error line next to a verdict: the verdict is not trusted... unless it stems from get-value after unsat
-            if not (res == "unsat" and re.search(r"\(error .*(model|get-value|unsat)", o)):
+            errs = re.findall(r"\(error[^\n]*", o)
+            benign = all(re.search(r"model|get-value|cannot get value|unsat|SAT", e) for e in errs)
+            if not (res == "unsat" and benign):
                 res = "error"
         out[name] = {"result": res, "time": time.time() - t0, "raw": o[-4000:]}
     except FileNotFoundError:
